@@ -313,6 +313,9 @@ func main() {
 		return true
 	}
 	his := []int64{-(Q / 2), -1, 0, 1, Q/2 - 1}
+	for k := int64(1); k <= 14; k++ { // thorough: 28 more high words spread over the domain
+		his = append(his, k*(Q/2)/15, -k*(Q/2)/15)
+	}
 	for k, hv := range his {
 		hv := hv
 		tier := "t"
@@ -377,6 +380,39 @@ func main() {
 				c.Sample(map[string]any{"k": 1, "zeta": z[1]})
 			}
 		}
+	})
+	alphaT := []int64{2, -2, 3, (Q + 1) / 2, -(Q - 1) / 2, 1 << 13, GAMMA1, -GAMMA1, GAMMA2, 4190208, 8380416 / 3, 1753}
+	qd("ntt-basis-products-wide", "all 65536 monomial pairs x 12x12 further coefficient values (2, 3, (q+1)/2, 2^13, gamma1, gamma2, ...)", "t", 65536*144, 4096, func(c *drv.Ctx, lo, hi int64) {
+		for idx := lo; idx < hi; idx++ {
+			c.At(idx)
+			i, j := int(idx>>8&255), int(idx&255)
+			ca, cb := alphaT[idx>>16%12], alphaT[idx>>16/12]
+			var a, b, pr [256]int32
+			a[i], b[j] = int32(ca), int32(cb)
+			dilithium.VerifNTT(&a)
+			dilithium.VerifNTT(&b)
+			dilithium.VerifPointwise(&pr, &a, &b)
+			dilithium.VerifInvNTTToMont(&pr)
+			expC := mod(mod(ca) * mod(cb))
+			pos := i + j
+			if pos >= 256 {
+				pos -= 256
+				expC = mod(-expC)
+			}
+			for k := 0; k < 256; k++ {
+				e := int64(0)
+				if k == pos {
+					e = expC
+				}
+				if mod(int64(pr[k])) != e {
+					c.Fail(idx, "ntt-product", map[string]any{"i": i, "j": j, "ca": ca, "cb": cb})
+					break
+				}
+			}
+			c.Eval(1)
+			c.Nontrivial(1)
+		}
+		c.Outcome("ok")
 	})
 	alpha := []int64{1, -1, Q - 1, -(Q - 1), (Q - 1) / 2, 1 << 22}
 	qd("ntt-basis-products", "all 65536 monomial pairs (X^i, X^j) x 36 coefficient pairs: invntt(ntt(a) o ntt(b)) == a*b mod (X^256+1, q); invntt(ntt(a)) == a*2^32", "", 65536*36, 4096, func(c *drv.Ctx, lo, hi int64) {
